@@ -186,6 +186,24 @@ def check(it, name, formula, **info):
     it.emit(Ev('Check', name=name, formula=formula, hyps=list(it.path.pc), info=info))
 
 
+def interference(it):
+    """ghost step: between two uses of an object the rest of the process runs -- other objects are built from the same classes,
+    other functions of the same modules are called.  Every PROCESS-WIDE dict (module level or class body) that the code fills
+    keeps the keys this path wrote, but each of them may meanwhile have been overwritten with an arbitrary value; a verdict
+    reached through such an entry needs an invariant over that state which no contract states (undecided, never proved)."""
+    from .values import ClassV
+    for m in list(it.modules.values()):
+        holders = [m] + [c for c in getattr(m, 'attrs', {}).values() if isinstance(c, ClassV)]
+        for hld in holders:
+            for name, v in list(getattr(hld, 'attrs', {}).items()):
+                if isinstance(v, PyDict) and getattr(v, 'history', None) is not None:
+                    for k in list(v.d):
+                        if it.decide(2, lambda i: True) == 0:
+                            v.d[k] = it.uncell(it.fresh('overwritten_entry', Cell))
+                            it.path.info['needs_invariant'] = ('an entry of the process-wide dict %s written earlier on this path may have '
+                                                               'been overwritten by other users of it' % name)
+
+
 def cover(it, name):
     it.emit(Ev('Cover', name=name, hyps=list(it.path.pc)))
 
